@@ -283,3 +283,95 @@ instance (r : RE) (gen : Nat → Bool) : Decidable (DeadEndSpec r gen) :=
   decidable_of_iff _ (decDeadEnd_iff r gen)
 
 end PM
+
+namespace PM
+set_option linter.unusedSimpArgs false
+
+/-! ### the symbols of a parsed expression are node types of the table -/
+
+theorem syms_alts (rs : List RE) (b : Nat) (h : b ∈ (RE.alts rs).syms) : ∃ x, x ∈ rs ∧ b ∈ x.syms := by
+  induction rs with
+  | nil => simp [RE.alts, RE.syms] at h
+  | cons r rs ih =>
+    cases rs with
+    | nil => exact ⟨r, by simp, by simpa [RE.alts] using h⟩
+    | cons r' rs =>
+      simp only [RE.alts, RE.syms, List.mem_append] at h
+      rcases h with h | h
+      · exact ⟨r, by simp, h⟩
+      · obtain ⟨x, hx, hb⟩ := ih h
+        exact ⟨x, List.mem_cons_of_mem _ hx, hb⟩
+
+theorem syms_seqs (rs : List RE) (b : Nat) (h : b ∈ (RE.seqs rs).syms) : ∃ x, x ∈ rs ∧ b ∈ x.syms := by
+  induction rs with
+  | nil => simp [RE.seqs, RE.syms] at h
+  | cons r rs ih =>
+    cases rs with
+    | nil => exact ⟨r, by simp, by simpa [RE.seqs] using h⟩
+    | cons r' rs =>
+      simp only [RE.seqs, RE.syms, List.mem_append] at h
+      rcases h with h | h
+      · exact ⟨r, by simp, h⟩
+      · obtain ⟨x, hx, hb⟩ := ih h
+        exact ⟨x, List.mem_cons_of_mem _ hx, hb⟩
+
+theorem syms_rep (r : RE) (n : Nat) (b : Nat) (h : b ∈ (RE.rep r n).syms) : b ∈ r.syms := by
+  induction n with
+  | zero => simp [RE.rep, RE.syms] at h
+  | succ n ih =>
+    simp only [RE.rep, RE.syms, List.mem_append] at h
+    exact h.elim id ih
+
+theorem syms_range (r : RE) (mn : Nat) (mx : Option Nat) (b : Nat) (h : b ∈ (RE.range r mn mx).syms) : b ∈ r.syms := by
+  cases mx with
+  | none =>
+    simp only [RE.range, RE.syms, List.mem_append] at h
+    exact h.elim (syms_rep r mn b) id
+  | some m =>
+    simp only [RE.range, RE.syms, List.mem_append] at h
+    rcases h with h | h
+    · exact syms_rep r mn b h
+    · have := syms_rep (RE.opt r) (m - mn) b h
+      simpa [RE.opt, RE.syms] using this
+
+mutual
+theorem toRE_syms : ∀ (e : Expr) (b : Nat), b ∈ e.toRE.syms → b ∈ e.names
+  | .choice es, b, h => by
+    simp only [Expr.toRE] at h
+    simp only [Expr.names]
+    obtain ⟨x, hx, hb⟩ := syms_alts _ b h
+    exact toREs_syms es b x hx hb
+  | .seq es, b, h => by
+    simp only [Expr.toRE] at h
+    simp only [Expr.names]
+    obtain ⟨x, hx, hb⟩ := syms_seqs _ b h
+    exact toREs_syms es b x hx hb
+  | .plus e, b, h => by
+    simp only [Expr.toRE, RE.plus, RE.syms, List.mem_append, or_self] at h
+    simp only [Expr.names]
+    exact toRE_syms e b h
+  | .star e, b, h => by
+    simp only [Expr.toRE, RE.syms] at h
+    simp only [Expr.names]
+    exact toRE_syms e b h
+  | .opt e, b, h => by
+    simp only [Expr.toRE, RE.opt, RE.syms, List.nil_append] at h
+    simp only [Expr.names]
+    exact toRE_syms e b h
+  | .range mn mx e, b, h => by
+    simp only [Expr.toRE] at h
+    simp only [Expr.names]
+    exact toRE_syms e b (syms_range _ mn mx b h)
+  | .name t, b, h => by
+    simpa [Expr.toRE, RE.syms, Expr.names] using h
+theorem toREs_syms : ∀ (es : List Expr) (b : Nat) (x : RE), x ∈ Expr.toREs es → b ∈ x.syms → b ∈ Expr.namesL es
+  | [], _, _, hx, _ => by simp [Expr.toREs] at hx
+  | e :: es, b, x, hx, hb => by
+    simp only [Expr.toREs, List.mem_cons] at hx
+    simp only [Expr.namesL, List.mem_append]
+    rcases hx with rfl | hx
+    · exact Or.inl (toRE_syms e b hb)
+    · exact Or.inr (toREs_syms es b x hx hb)
+end
+
+end PM
